@@ -87,9 +87,28 @@ class _Isolation:
     each path.  Otherwise state left behind by one path leaks into the next, and a counterexample found there would
     not be the history its arguments describe (it would not reproduce in the fresh replay process)."""
 
+    _preloaded = False
+
     def __init__(self, prefix: str = "semantiva"):
         import sys
 
+        if not _Isolation._preloaded:
+            # modules imported lazily by a path would otherwise be seen (and snapshotted) only after that path changed them
+            _Isolation._preloaded = True
+            try:
+                import importlib
+                import pkgutil
+
+                pkg = importlib.import_module(prefix)
+                for mi in pkgutil.walk_packages(pkg.__path__, prefix + "."):
+                    if ".examples" in mi.name or mi.name.endswith("__main__"):
+                        continue
+                    try:
+                        importlib.import_module(mi.name)
+                    except BaseException:  # noqa: BLE001 - optional dependencies
+                        pass
+            except BaseException:  # noqa: BLE001
+                pass
         self.items = []
         seen = set()
         for mname, mod in list(sys.modules.items()):
